@@ -53,7 +53,10 @@ struct in_unixio IN;
 
 unsigned long long g_bstar;
 unsigned int g_ostar;
-unsigned char g_disk, g_logical;
+#ifndef g_disk		/* raw.c keeps the device byte inside its one-struct device model (fewer DFCC assigns targets) */
+unsigned char g_disk;
+#endif
+unsigned char g_logical;
 unsigned int g_nwrites;		/* number of raw_write_blk calls so far (ghost) */
 unsigned int g_choice;		/* next ret_choice to consume */
 unsigned int g_nreads;
@@ -169,7 +172,7 @@ static int any_dirty(struct unix_private_data *data) { return ANY(INUSE_DIRTY); 
 static int any_inuse(struct unix_private_data *data) { return ANY(INUSE); }
 static int bufs_tied(struct unix_private_data *data) { return ALL(BUF_TIED); }
 
-#ifndef VERIF_NATIVE
+#if !defined(VERIF_NATIVE) && !defined(CFG_OWN_MEMCPY)
 /*
  * libc memcpy as seen by the cache layer (CBMC's byte-array model with a symbolic length is what made the monolithic
  * attempt run out of memory): source readable / destination writable for n bytes are obligations at every call; the copy
@@ -241,6 +244,8 @@ static errcode_t raw_read_blk(io_channel channel, struct unix_private_data *data
 	/* the tracked byte of the caller's buffer object is not touched when it lies outside the request's buffer range */
 	ENSURES(!KEEP_OUTSIDE(bufv, WR_SIZE(channel, count)) || *g_keep == OLD(*g_keep))
 	ENSURES(ALIGN_STEP(channel));
+
+static int cache_range_ok(io_channel channel, struct unix_private_data *data) { return CACHE_RANGE_OK(channel, data); }
 
 /* ------------------------------------------------------------------ the cache (enforced in cache.c) */
 /*
